@@ -7,71 +7,6 @@ open Gen
 
 namespace Gen.Defaults
 
-mutual
-def identFree : CV → Bool
-  | .ident _ _ => false
-  | .list xs => identFreeL xs
-  | .map kvs => identFreeP kvs
-  | _ => true
-def identFreeL : List CV → Bool
-  | [] => true
-  | x :: r => identFree x && identFreeL r
-def identFreeP : List (CV × CV) → Bool
-  | [] => true
-  | (k, v) :: r => identFree k && identFree v && identFreeP r
-end
-
-def litOK (s : Bytes) : Bool := goUnquote (emitStr s) == interp s
-
-def isMapLit : CV → Bool
-  | .map _ => true
-  | _ => false
-
-/-- a member that needs a pointer but is not of a base type: only a struct literal gives an addressable value -/
-def addrOK (f : AField) (v : CV) : Bool :=
-  if needRedirect f && !f.ty.cat.isBase then f.ty.cat == .strct && isMapLit v else true
-
-/-- a string literal must be one on which Go's reading of the emitted text is the literal's meaning -/
-def goodStr : CV → Bool
-  | .lit s => litOK s
-  | _ => true
-
-mutual
-def good (E : Env) : Nat → ATy → CV → Bool
-  | g, t, v =>
-    match t.cat with
-    | .str | .bin => goodStr v
-    | .list | .set =>
-        match v with
-        | .list xs => (match t.elem? with | some e => goodL E g e xs | none => true)
-        | _ => true
-    | .map =>
-        match v with
-        | .map kvs => (match t.key?, t.elem? with | some k, some w => goodP E g (bin2str k) w kvs | _, _ => true)
-        | _ => true
-    | .strct =>
-        match v with
-        | .map kvs =>
-            match structOf E g t with
-            | .ok (file, st) => (file == g || identFreeP kvs) && goodM E file st kvs
-            | _ => true
-        | _ => true
-    | _ => true
-def goodL (E : Env) : Nat → ATy → List CV → Bool
-  | _, _, [] => true
-  | g, e, x :: r => good E g e x && goodL E g e r
-def goodP (E : Env) : Nat → ATy → ATy → List (CV × CV) → Bool
-  | _, _, _, [] => true
-  | g, k, w, (a, b) :: r => good E g k a && good E g w b && goodP E g k w r
-def goodM (E : Env) : Nat → AStruct → List (CV × CV) → Bool
-  | _, _, [] => true
-  | file, st, (k, v) :: r =>
-      (match k with
-       | .lit n => (match findField st.fields n with
-          | some (_, f) => addrOK f v && good E file f.ty v
-          | none => true)
-       | _ => true) && goodM E file st r
-end
 
 end Gen.Defaults
 
@@ -668,10 +603,6 @@ theorem rc_ident_composite {s : Bytes} {x : Option Extra} {g gv : Nat} {t : ATy}
         cases w <;> simp [hr] at hI
         subst hI; exact this
 
-def CV.isLeaf : CV → Bool
-  | .list _ | .map _ => false
-  | _ => true
-
 theorem rc_leaf {v : CV} {g gv : Nat} {t : ATy} {e : GoExpr} {val : GoVal} (hl : v.isLeaf = true)
     (h : resolveConst E root g t v = .ok e) (hs : g = gv ∨ identFree v = true) (hg : good E g t v = true)
     (hI : evalIDL E ρI g gv t v = some val) : evalGo E ρG e = some val := by
@@ -1092,15 +1023,6 @@ end main
 end Gen.Defaults
 
 namespace Gen.Defaults
-
-/-- thriftgo accepted the program: every constant's initialiser resolves (root scope = its own file) -/
-def Accepted (E : Env) : Prop :=
-  ∀ f n c, E.findConst f n = some c → ∃ e, resolveConst E f f c.ty c.val = .ok e
-
-/-- every constant's initialiser satisfies the hypotheses of `const_value` -/
-def EnvGood (E : Env) : Prop :=
-  ∀ f n c, E.findConst f n = some c → good E f c.ty c.val = true
-
 theorem findConst_hasGlobal {E : Env} {f : Nat} {n : Name} {c : AConst} (h : E.findConst f n = some c) :
     E.hasGlobal f n = true := by
   unfold Env.findConst at h
@@ -1140,16 +1062,6 @@ theorem envAgree (E : Env) (hacc : Accepted E) (hgood : EnvGood E) :
 end Gen.Defaults
 
 namespace Gen.Defaults
-
-/-- the scan of the literal never meets a quote right after a backslash that starts an escape, nor a raw newline -/
-def litSafe : LexSt → Bytes → Bool
-  | _, [] => true
-  | st, c :: r =>
-      if st = .esc ∧ c = 34 then false
-      else if st = .norm ∧ c = 10 then false
-      else match lexStep st c with
-        | some (st', _) => litSafe st' r
-        | none => true
 
 theorem escQ_cons_quote (r : Bytes) : escQ (34 :: r) = 92 :: 34 :: escQ r := by simp [escQ]
 theorem escQ_cons_other {c : Nat} (h : c ≠ 34) (r : Bytes) : escQ (c :: r) = c :: escQ r := by simp [escQ, h]
@@ -1256,101 +1168,6 @@ end Gen.Defaults
 
 namespace Gen.Defaults
 
-def resOk {α : Type} : Res α → Bool
-  | .ok _ => true
-  | _ => false
-
-/-- the identifier resolves to a Go name in scope `g` -/
-def idResolves (E : Env) (g : Nat) (x : Option Extra) : Bool :=
-  match getID E g x with
-  | .ok (some _) => true
-  | _ => false
-
-/-- looking the identifier up crashes (no Extra: `true`/`false` where no boolean is expected; a scope that
-    does not have the include) -/
-def idPanics (E : Env) (g : Nat) (x : Option Extra) : Bool :=
-  match getID E g x with
-  | .panic => true
-  | _ => false
-
-def isTF (s : Bytes) : Bool := s = bTrue || s = bFalse
-
-/-- the kinds of initializer each scalar category takes (C04's catalogue) -/
-def accScalar (E : Env) (root g : Nat) (t : ATy) (v : CV) : Bool :=
-  match t.cat with
-  | .bool =>
-      (match v with
-       | .int _ | .dbl _ _ => true
-       | .ident s x => isTF s || idResolves E g x
-       | _ => false)
-  | .i8 | .i16 | .i32 | .i64 =>
-      (match v with
-       | .int _ => true
-       | .ident s x => isTF s || (idResolves E g x && (typeName E root g t matches .ok _ | .err))
-       | _ => false)
-  | .dbl =>
-      (match v with
-       | .int _ | .dbl _ _ => true
-       | .ident s x => isTF s || idResolves E g x
-       | _ => false)
-  | .str | .bin =>
-      (match v with
-       | .lit _ => true
-       | .ident s x => !isTF s && idResolves E g x
-       | _ => false)
-  | .enum =>
-      (match v with
-       | .int _ => true
-       | .ident _ x => idResolves E g x
-       | _ => false)
-  | _ => false
-
-mutual
-/-- exactly the initializers thriftgo accepts (the tolerance for containers included) -/
-def accepts (E : Env) (root : Nat) : Nat → ATy → CV → Bool
-  | g, t, v =>
-    match t.cat with
-    | .list | .set =>
-        resOk (typeName E root g t) &&
-        (match v with
-         | .list xs => acceptsL E root g t.elem? xs
-         | .ident _ x => !idPanics E g x
-         | _ => true)                                     -- any other kind: `T{}`
-    | .map =>
-        resOk (typeName E root g t) &&
-        (match v with
-         | .map kvs => acceptsP E root g (t.key?.map bin2str) t.elem? kvs
-         | .ident _ x => !idPanics E g x
-         | _ => true)
-    | .strct =>
-        resOk (typeName E root g t) &&
-        (match v with
-         | .ident _ x => idResolves E g x
-         | .map kvs =>
-             (match structOf E g t with
-              | .ok (file, st) => acceptsM E root file st kvs
-              | _ => false)
-         | _ => false)
-    | _ => accScalar E root g t v
-def acceptsL (E : Env) (root : Nat) : Nat → Option ATy → List CV → Bool
-  | _, _, [] => true
-  | _, none, _ :: _ => false
-  | g, some e, x :: xs => accepts E root g e x && acceptsL E root g (some e) xs
-def acceptsP (E : Env) (root : Nat) : Nat → Option ATy → Option ATy → List (CV × CV) → Bool
-  | _, _, _, [] => true
-  | g, some kt, some vt, (k, v) :: r => accepts E root g kt k && accepts E root g vt v && acceptsP E root g (some kt) (some vt) r
-  | _, _, _, _ :: _ => false
-def acceptsM (E : Env) (root : Nat) : Nat → AStruct → List (CV × CV) → Bool
-  | _, _, [] => true
-  | file, st, (k, v) :: r =>
-      (match k with
-       | .lit n =>
-           (match findField st.fields n with
-            | some (_, f) => resOk (typeName E root file f.ty) && accepts E root file f.ty v
-            | none => false)
-       | _ => false) && acceptsM E root file st r
-end
-
 theorem bFalse_ne_bTrue : bFalse ≠ bTrue := by decide
 
 theorem getID_cases (E : Env) (g : Nat) (x : Option Extra) :
@@ -1363,10 +1180,8 @@ theorem getID_cases (E : Env) (g : Nat) (x : Option Extra) :
   | panic => exact Or.inr (Or.inr rfl)
 
 theorem onBool_isOk (E : Env) (g : Nat) (v : CV) :
-    resOk (onBool E g v) = (match v with
-       | .int _ | .dbl _ _ => true
-       | .ident s x => isTF s || idResolves E g x
-       | _ => false) := by
+    resOk (onBool E g v) = accBool E g v := by
+  unfold accBool
   cases v with
   | ident s x =>
     simp only [onBool, isTF, idResolves]
@@ -1379,10 +1194,8 @@ theorem onBool_isOk (E : Env) (g : Nat) (v : CV) :
   | _ => simp [onBool, resOk]
 
 theorem onDouble_isOk (E : Env) (g : Nat) (v : CV) :
-    resOk (onDouble E g v) = (match v with
-       | .int _ | .dbl _ _ => true
-       | .ident s x => isTF s || idResolves E g x
-       | _ => false) := by
+    resOk (onDouble E g v) = accDouble E g v := by
+  unfold accDouble
   cases v with
   | ident s x =>
     simp only [onDouble, isTF, idResolves]
@@ -1395,10 +1208,8 @@ theorem onDouble_isOk (E : Env) (g : Nat) (v : CV) :
   | _ => simp [onDouble, resOk]
 
 theorem onInt_isOk (E : Env) (root g : Nat) (t : ATy) (v : CV) :
-    resOk (onInt E root g t v) = (match v with
-       | .int _ => true
-       | .ident s x => isTF s || (idResolves E g x && (typeName E root g t matches .ok _ | .err))
-       | _ => false) := by
+    resOk (onInt E root g t v) = accInt E root g t v := by
+  unfold accInt
   cases v with
   | ident s x =>
     simp only [onInt, isTF, idResolves]
@@ -1408,16 +1219,14 @@ theorem onInt_isOk (E : Env) (root g : Nat) (t : ATy) (v : CV) :
       · simp [h2, resOk, bFalse_ne_bTrue]
       · simp only [h1, h2, if_false]
         rcases getID_cases E g x with ⟨r, h⟩ | h | h
-        · cases htn : typeName E root g t <;> simp [h, resOk]
+        · cases htn : typeName E root g t <;> simp [h, resOk, noPanic]
         · simp [h, resOk]
         · simp [h, resOk]
   | _ => simp [onInt, resOk]
 
 theorem onEnum_isOk (E : Env) (g : Nat) (v : CV) :
-    resOk (onEnum E g v) = (match v with
-       | .int _ => true
-       | .ident _ x => idResolves E g x
-       | _ => false) := by
+    resOk (onEnum E g v) = accEnum E g v := by
+  unfold accEnum
   cases v with
   | ident s x =>
     simp only [onEnum, idResolves]
@@ -1425,14 +1234,9 @@ theorem onEnum_isOk (E : Env) (g : Nat) (v : CV) :
   | _ => simp [onEnum, resOk]
 
 theorem onStrBin_isOk (E : Env) (g : Nat) (t : ATy) (v : CV) :
-    resOk (onStrBin E g t v) = (match v with
-       | .lit _ => true
-       | .ident s x => !isTF s && idResolves E g x
-       | _ => false) := by
-  have core : resOk (strBinCore E g v) = (match v with
-       | .lit _ => true
-       | .ident s x => !isTF s && idResolves E g x
-       | _ => false) := by
+    resOk (onStrBin E g t v) = accStr E g v := by
+  have core : resOk (strBinCore E g v) = accStr E g v := by
+    unfold accStr
     cases v with
     | ident s x =>
       simp only [strBinCore, isTF, idResolves]
